@@ -29,8 +29,12 @@ def main():
         lean = LeanBuild.ensure()
         mod = importlib.import_module(f"harness.props.{prop.lower()}")
         rule = mod.run(ctx)
-        if lean.get("generated_broken") and prop in getattr(mod, "USES_GENERATED", ()):  # broken proof obligation
-            pass
+        if lean.get("generated_broken") and prop in getattr(mod, "USES_GENERATED", ()):
+            # the proof obligation regenerated from the source no longer checks
+            ctx.broken.insert(0, {"kind": "proof-obligation-broken",
+                                  "what": "lake build fails on the obligation regenerated from the Python source",
+                                  "theorem": "Pta.C12.generated_flags_agree (PtaProofs/Props/Tables.lean) over lean/Generated/Flags.lean",
+                                  "targets": lean["generated_broken"], "log": lean.get("build_log", "")[-1500:]})
         code = finish(ctx, lean, rule, getattr(mod, "ASSUMPTIONS", ()))
         print(f"[{prop}] tier={a.tier} seed={seed} evaluations={sum(s['evaluations'] for s in ctx.streams)} "
               f"violations={len(ctx.violations)} broken={len(ctx.broken)} wall={time.time()-ctx.t0:.1f}s exit={code}")
